@@ -462,7 +462,7 @@ static void explore_text_inner(void)
 	for (int n = 0; n < nnodes; n++)
 	{
 		size_t i = nodes[n].pos;
-		if (opt_mode == 1)
+		if (opt_mode <= 1)
 		{
 			/* a call with length 0 in this state: asks for more input, reports end 0, changes nothing */
 			struct json_tokener *tok = new_tok();
